@@ -38,7 +38,7 @@ def describe(tier):
             f"{len(DOM_PRE)}x{len(DOM_SUF)} neighbours, by find_emails on {len(LOCALS)}x{len(MAIL_DOMS)} addresses x neighbours, and by find_urls on the URL grammar of C12 (incl. nested escapes such as %4%41 whose normal form contains a new escape); every reported URL value is fed back to the decoder in the same process and validated again. "
             "Validators written from the statement: canonical dotted quad by integer parsing (free-text IP: value == covered text); domain = non-empty name + '.' + "
             "registered TLD (free text: only letters/digits/hyphen/dot, >= 7 characters); e-mail = local@such-a-domain; URL: scheme in {http,https,ftp} ignoring "
-            "case, non-empty host, value == own percent-normalisation of the covered text, label escape.percent iff that shortened it. "
+            "case, non-empty host, value == own percent-normalisation of the covered text (every escape %XY: 256 values x every letter-case spelling of its two hex digits x 6 URL positions), label escape.percent iff that shortened it. "
             "states = distinct inputs, transitions = indicator nodes validated, traces = scans / decoder calls. Non-trivial = input with >= 1 indicator node."
         ),
         "bounds": {"octet_spellings": len(OCTETS), "tlds": len(TOP_LEVEL_DOMAINS), "labels": len(LABELS)},
@@ -50,7 +50,7 @@ def describe(tier):
 def plan(tier, seed):
     units = [("ips", i) for i in range(len(OCTETS))]
     units += [("domains", i, 16) for i in range(16)]
-    units += [("emails",), ("urls", 0), ("urls", 1), ("tld-table",)]
+    units += [("emails",), ("urls", 0), ("urls", 1), ("tld-table",)] + [("escapes", hi) for hi in range(0, 256, 32)]
     units += [("stream", u) for u in streams.plan(tier, fams=STREAM_FAMS)]
     units += core.interp_axis([("emails",), ("tld-table",), ("ips", 0)])
     return units
@@ -95,6 +95,8 @@ def validate(rec, n, orig, free_text, w, size):
                 rec.violation("C10.url.label", "url-label-iff-shortened", w, f"URL over {core.short(orig, 60)} labelled {n.obfuscation!r}, expected {want!r}", size)
 
 
+# a closing quote / parenthesis inside what the URL pattern takes for userinfo: the context trimming may leave nothing but the scheme
+QUOTED_USERINFO = [b"'+u+':'+p+'@", b"'@", b")@", b"\"@"]
 NET_TYPES = ("network.ip", "network.domain", "network.email", "network.url")
 FREE = {"find_ips": "network.ip", "find_domains": "network.domain", "find_emails": "network.email", "find_urls": "network.url"}
 
@@ -181,11 +183,26 @@ def run_unit(unit, rec):
         schemes = c12.SCHEMES + [b"gopher", b"HTTPX", b"ftps", b"file"]
         half = len(schemes) // 2
         for scheme in (schemes[:half] if unit[1] == 0 else schemes[half:]):
-            for ui, host, port, path, q, f, e in itertools.product(c12.USERINFO[:6], c12.HOSTS + EXTRA_HOSTS, c12.PORTS[:2], URL_PATHS, c12.QUERIES[:3:2], c12.FRAGS[:3:2], c12.EMBED[:2]):
+            for ui, host, port, path, q, f, e in itertools.product(c12.USERINFO[:6] + QUOTED_USERINFO, c12.HOSTS + EXTRA_HOSTS, c12.PORTS[:2], URL_PATHS, c12.QUERIES[:3:2], c12.FRAGS[:3:2], c12.EMBED[:2]):
                 url = scheme + b"://" + ui + host + port + path + q + f
                 data = c12.embed(url, e)
                 call(rec, network.find_urls, data, {"kind": "call", "fn": "find_urls", "data": data})
         rec.sample({"family": "urls", "last": data})
+    elif kind == "escapes":
+        # EVERY escape %XY: all 256 values x every letter-case spelling of the two hex digits (xy, xY, Xy, XY) x 6 positions of a URL
+        n = 0
+        for v in range(unit[1], unit[1] + 32):
+            hx = b"%02x" % v
+            spellings = {bytes([c1, c2]) for c1 in (hx[0:1].lower()[0], hx[0:1].upper()[0]) for c2 in (hx[1:2].lower()[0], hx[1:2].upper()[0])}
+            for sp in sorted(spellings):
+                esc = b"%" + sp
+                for url in (b"http://example.com/x" + esc + b"y", b"http://example.com/a?q=" + esc, b"http://example.com/a#" + esc + b"z", b"http://u" + esc + b":p@example.com/",
+                            b"http://ex" + esc + b"ample.com/", b"ftp://example.com/" + esc + esc.swapcase() + b"/" + esc):
+                    for pre, suf in ((b"", b""), (b"see ", b" now")):
+                        data = pre + url + suf
+                        call(rec, network.find_urls, data, {"kind": "call", "fn": "find_urls", "data": data})
+                        n += 1
+        rec.sample({"family": "every-escape-every-case-spelling", "values": [unit[1], unit[1] + 31], "cases": n})
     elif kind == "tld-table":
         rec.count("evaluations")
         rec.count("traces")
